@@ -55,6 +55,10 @@ def decorate(rng, v):
         v["aci"] = rng.choice([0, 1])           # consumed by EnumString only; every other derive must ignore it
     if rng.random() < 0.15:
         v["xattrs"] = ["#[allow(dead_code)]"]    # a non-strum attribute next to the strum ones
+    if v["dis"] and v["fields"] and not v.get("def") and rng.random() < 0.35:
+        v["fields"][0]["ty"] = "panicdef"     # evaluating this payload's Default panics; the variant is disabled, so nobody may
+        v["fields"][0]["dw"] = ""
+        v["dwith"] = ""
     if rng.random() < 0.2:
         v["docattrs"] = [(rng.randrange(3), rng.choice(["#[doc(hidden)]", '#[doc(alias = "nick")]']))]
     # a property KEY that reads like a keyword (props are consumed by EnumProperty only)
@@ -180,7 +184,7 @@ def table_def(did, mask, idents=None):
     import random as _r
     rng = _r.Random(did * 7 + len(mask))
     vs = [decorate(rng, variant(idents[i], dis=bool(m))) for i, m in enumerate(mask)]
-    if did % 3 == 1 and len(vs) >= 2:
+    if did % 3 == 1 and 2 <= len(vs) <= 9:
         # explicit discriminants, permuted / out of the 0..n range: a key is a variant, not a number
         vals = rng.sample([0, 1, 2, 3, 4, 5, 7, 40, 200], len(vs))
         for v, x in zip(vs, vals):
@@ -215,5 +219,16 @@ def table_module(E, depth, steps):
             "    fn default_table() -> Self { Default::default() }\n"
             "}\n" % (n, ", ".join(map(str, en)), ", ".join(map(str, dis)), n, ", ".join("a[%d]" % p for p in range(len(en))),
                      n, n, n, n, n, n, n, n, proj, n, n, n, proj))
-    src += RUN + "    table_drive::<%sTable<u8>>(o, %d, %d, %d, seed);\n}\n" % (n, E["id"], depth, steps)
+    src += ("#[derive(Default)] pub struct NotClone(pub u8);\n"
+            "fn _default_needs_only_default<X: Default>() {}\nfn _check_default_bound() { _default_needs_only_default::<%sTable<NotClone>>(); }\n" % n)
+    src += RUN + "    table_drive::<%sTable<u8>>(o, %d, %d, %d, seed);\n" % (n, E["id"], depth, steps)
+    # values that are shared handles: default() gives every slot its OWN default, so a change made through one slot's value shows in no other
+    src += ("    { use std::rc::Rc; use std::cell::Cell;\n"
+            "      let r = catch(|| { let t: %sTable<Rc<Cell<u8>>> = Default::default(); let mut rows: Vec<String> = Vec::new();\n"
+            "        for w in [%s] { t[key(w)].set(5); let row: Vec<String> = [%s].iter().map(|k| t[key(*k)].get().to_string()).collect(); rows.push(format!(\"[{}]\", row.join(\",\"))); t[key(w)].set(0); }\n"
+            "        rows });\n"
+            "      match r { Ok(rows) => o.line(&format!(\"{{\\\"op\\\":\\\"tbalias\\\",\\\"def\\\":%d,\\\"rows\\\":[{}]}}\", rows.join(\",\"))),\n"
+            "                Err(p) => o.line(&format!(\"{{\\\"op\\\":\\\"panic\\\",\\\"def\\\":%d,\\\"i\\\":0,\\\"msg\\\":{}}}\", jcps(&p))) } }\n"
+            % (n, ", ".join(map(str, en)), ", ".join(map(str, en)), E["id"], E["id"]))
+    src += "}\n"
     return src
